@@ -10,11 +10,13 @@ mod verif_kani {
     use super::*;
     use crate::verif_spec::{any_str_in, fuses};
 
+    /// previous output: every printable ASCII byte and newline
     fn alpha(b: u8) -> bool {
-        matches!(b, b'a' | b'1' | b'.' | b'-' | b'[' | b' ' | b'\n')
+        (b >= 0x20 && b <= 0x7E) || b == b'\n'
     }
+    /// pushed tokens: every printable, non-blank ASCII byte
     fn tok_alpha(b: u8) -> bool {
-        matches!(b, b'a' | b'1' | b'.' | b'-' | b'[' | b'=')
+        b > 0x20 && b <= 0x7E
     }
     /// generator in an arbitrary well-formed state: `N` previous output bytes, any column span,
     /// any current line length / last push length allowed by wf, indentation level `IND`
@@ -109,12 +111,20 @@ mod verif_kani {
         core::mem::forget(g);
     }
 
-    //@harness props=C02,C12 kind=bounded fns=ReadableLuaGenerator::push_str,ReadableLuaGenerator::push_space_if_needed,ReadableLuaGenerator::needs_space,ReadableLuaGenerator::raw_push_str bound="previous output: exactly 2 bytes over {a,1,.,-,[,space,\\n}; pushed token: <= 2 bytes over {a,1,.,-,[,=}; no indentation; line breaks allowed/forbidden symbolic; column_span, current_line_length, last_push_length: every usize value allowed by wf" budget=300
+    //@harness props=C02,C12 kind=bounded fns=ReadableLuaGenerator::push_str,ReadableLuaGenerator::push_space_if_needed,ReadableLuaGenerator::needs_space,ReadableLuaGenerator::raw_push_str bound="previous output: exactly 2 bytes over ALL printable ASCII and newline; pushed token: <= 2 bytes over all printable non-blank ASCII; no indentation; line breaks allowed/forbidden symbolic; column_span, current_line_length, last_push_length: every usize value allowed by wf" budget=300
     //@ desc="push_str(c): requires wf; ensures wf, output' == output ++ blanks ++ c, blanks non-empty whenever last(output),first(c) fuse (O-lex), for EVERY column span and whether or not line breaks are allowed"
     #[kani::proof]
     #[kani::unwind(6)]
     fn vk_readable_push_str() {
         check_push_str::<2>(0);
+    }
+
+    //@harness props=C02,C12 kind=bounded tier=thorough fns=ReadableLuaGenerator::push_str,ReadableLuaGenerator::push_space_if_needed bound="previous output: exactly 5 bytes over ALL printable ASCII and newline; pushed token <= 2 bytes over all printable non-blank ASCII; no indentation; column_span etc. symbolic" budget=1200
+    //@ desc="push_str(c), deeper bound: requires wf; ensures wf, output' == output ++ blanks ++ c, blanks non-empty whenever the neighbours fuse"
+    #[kani::proof]
+    #[kani::unwind(9)]
+    fn vk_readable_push_str_t() {
+        check_push_str::<5>(0);
     }
 
     //@harness props=C02,C12 kind=bounded fns=ReadableLuaGenerator::push_str,ReadableLuaGenerator::write_indentation bound="as vk_readable_push_str with indentation level 1 (4 spaces)" budget=400
@@ -125,7 +135,7 @@ mod verif_kani {
         check_push_str::<2>(1);
     }
 
-    //@harness props=C02,C12 kind=bounded fns=ReadableLuaGenerator::push_char,ReadableLuaGenerator::push_space_if_needed bound="previous output: exactly 2 bytes over the 7-letter alphabet; pushed char over {a,1,.,-,[,=}; no indentation; column_span etc. symbolic" budget=300
+    //@harness props=C02,C12 kind=bounded fns=ReadableLuaGenerator::push_char,ReadableLuaGenerator::push_space_if_needed bound="previous output: exactly 2 bytes over ALL printable ASCII and newline; pushed char: any printable non-blank ASCII; no indentation; column_span etc. symbolic" budget=300
     //@ desc="push_char(ch): requires wf; ensures wf, output' == output ++ blanks ++ ch, blanks non-empty whenever last(output),ch fuse (O-lex)"
     #[kani::proof]
     #[kani::unwind(6)]
